@@ -237,9 +237,23 @@ def _removal_sites_direct(ctx, f: FuncInfo, attr: str) -> list[tuple[ast.AST, as
     return out
 
 
+def _buffer_handed_to_computed_object(ctx: Ctx, f: FuncInfo):
+    """A call `<subscript or call result>.method(.., <the buffer>, ..)`: the buffer goes to a method of an object that
+    is looked up at run time (a strategy object out of a table ...) - what that method stores is not visible here."""
+    for n in ctx.own_nodes(f):
+        if isinstance(n, ast.Call) and isinstance(n.func, ast.Attribute) and isinstance(n.func.value, (ast.Subscript, ast.Call)) and not (isinstance(n.func.value, ast.Call) and isinstance(n.func.value.func, ast.Name) and n.func.value.func.id == "super"):
+            for a in list(n.args) + [k.value for k in n.keywords]:
+                if any((isinstance(x, ast.Name) and x.id in ("message_buffer", "_message_buffer")) or (isinstance(x, ast.Attribute) and x.attr in BUFFERS + ("_message_buffer",)) for x in ast.walk(a)):
+                    return n
+    return None
+
+
 def store_sites(ctx: Ctx, f: FuncInfo, attr: str) -> list[tuple[ast.Assign, ast.expr, ast.expr]]:
     prepare(ctx)
     require_plain_buffers(ctx)
+    esc = _buffer_handed_to_computed_object(ctx, f)
+    if esc is not None:
+        raise AnalysisError(f"the sleep buffer is handed to a method of an object that is selected at run time (`{norm(esc)[:70]}` in {f.qualname}): the stores it makes are not modelled")
     return _store_sites_direct(ctx, f, attr)
 
 
